@@ -73,10 +73,15 @@ def coq_sources():
     return sorted(out)
 
 
-def coq_lint():
-    """No Admitted / axiom declarations / disabled checks anywhere in the development."""
+def coq_lint(pid=None):
+    """No Admitted / axiom declarations / disabled checks anywhere in the development (pid given: in the files
+    that property's theorems depend on)."""
     bad = []
-    for path in coq_sources():
+    files = coq_sources()
+    cone = coq_cone(pid) if pid else None
+    if cone:
+        files = [f for f in files if os.path.relpath(f, COQ) in cone]
+    for path in files:
         txt = open(path).read()
         # strip comments (nested) before scanning
         txt = strip_coq_comments(txt)
@@ -106,14 +111,46 @@ def strip_coq_comments(s):
     return "".join(out)
 
 
-def coq_build(clean=False):
-    """make the development; returns (ok, log)."""
-    if not os.path.exists(os.path.join(COQ, "Makefile")) or clean:
+def coq_build(clean=False, pid=None):
+    """make the development (pid given: only Properties/<pid>.vo and what it depends on, so that a property's
+    verdict depends on its own cone of files only); returns (ok, log)."""
+    mk = os.path.join(COQ, "Makefile")
+    proj = os.path.join(COQ, "_CoqProject")
+    if not os.path.exists(mk) or clean or os.path.getmtime(proj) > os.path.getmtime(mk):
         sh("coq_makefile -f _CoqProject -o Makefile", cwd=COQ, check=True)
     if clean:
         sh("make clean", cwd=COQ, timeout=120)
-    rc, out = sh("make -j16", cwd=COQ, timeout=3000)
+    target = (" theories/Properties/%s.vo" % pid) if pid else ""
+    rc, out = sh("make -j16" + target, cwd=COQ, timeout=3000)
     return rc == 0, out
+
+
+def coq_cone(pid):
+    """the .v files Properties/<pid>.v transitively depends on (from coq_makefile's dependency file);
+    None when that file is not there yet"""
+    dep = os.path.join(COQ, ".Makefile.d")
+    if not os.path.exists(dep):
+        return None
+    deps = {}
+    txt = open(dep).read().replace("\\\n", " ")
+    for line in txt.split("\n"):
+        if ":" not in line:
+            continue
+        lhs, rhs = line.split(":", 1)
+        for t in lhs.split():
+            if t.endswith(".vo"):
+                deps.setdefault(t[:-1], set()).update(x[:-1] for x in rhs.split() if x.endswith(".vo") and x.startswith("theories/"))
+    root = "theories/Properties/%s.v" % pid
+    if root not in deps:
+        return None
+    seen, todo = set(), [root]
+    while todo:
+        f = todo.pop()
+        if f in seen:
+            continue
+        seen.add(f)
+        todo += list(deps.get(f, ()))
+    return seen
 
 
 def coq_property_file(pid):
@@ -426,11 +463,11 @@ def write_evidence(ctx, proof, coverage_extra, assumptions, samples):
 def proof_layer(ctx):
     """L1 for this property. Returns dict(obligations, discharged, theorems, assumptions, ok, why)."""
     info = dict(obligations=0, discharged=0, theorems=[], ok=True, why="")
-    bad = coq_lint()
+    bad = coq_lint(ctx.pid)
     if bad:
         info.update(ok=False, why="forbidden construct: " + "; ".join(bad[:5]))
         return info
-    ok, log = coq_build()
+    ok, log = coq_build(pid=ctx.pid)
     if not ok:
         info.update(ok=False, why="coq development does not build:\n" + log[-2500:])
         return info
